@@ -115,3 +115,18 @@ def show_cells(cs):
 def snapshot(f):
     """Everything observable about a value that C09/C13 require to stay unchanged (plain data)."""
     return (tuple(cells(f)), f.s, str(f), len(f), len(f.chunks))
+
+
+REPEAT_HOWS = ("f*2", "f+f", "f.join([f,f])")
+
+
+def build_repeated(spec, how):
+    """Values in which the *same run objects* occur more than once (what f * n, f + f and join produce):
+    returns (value, expected cells).  Identity-based shortcuts in the library only show on such values."""
+    f = build(spec)
+    fc = spec_cells(spec)
+    if how == "f*2":
+        return f * 2, fc * 2
+    if how == "f+f":
+        return f + f, fc + fc
+    return f.join([f, f]), fc * 3
